@@ -407,9 +407,61 @@ def translate_put(body):
     return ops, shown
 
 
-def check_rc_sites(tu):
+NONATOMIC_UPDATE = re.compile(r"(\+\+|--)\s*\w+\s*->\s*_ref_count|_ref_count\s*(\+\+|--|[-+*/|&^]?=(?!=))")
+
+
+def fn_name(header):
+    m = re.search(r"(\w+)\s*\([^()]*\)$", header)
+    return m.group(1) if m else header[-60:]
+
+
+def source_lines(repo, fname, func):
+    """(line, text) of the lines mentioning _ref_count inside the definition of func in the
+    ORIGINAL source file (the preprocessed text has no line numbers)"""
+    try:
+        src = open(os.path.join(repo, fname)).read()
+    except OSError:
+        return []
+    m = re.search(r"^[A-Za-z_][^;{}()\n]*\b%s\s*\([^;{}]*\)\s*\{" % re.escape(func), src, re.M)
+    if not m:
+        return []
+    start = m.end() - 1
+    try:
+        end = match_close(src, start, "{", "}")
+    except Unrecognised:
+        return []
+    first = src.count("\n", 0, start) + 1
+    out = []
+    for i, l in enumerate(src[start:end].split("\n")):
+        if "_ref_count" in l and not l.strip().startswith(("//", "*", "/*")):
+            out.append((first + i, l.strip()))
+    return out
+
+
+def callers_closure(tu, target):
+    """names of the functions of the translation unit from which `target` is reachable, where an
+    edge g -> f is any mention of f in the body of g (a call, or its address handed to a table /
+    array constructor as the entry-free function)"""
+    fns = [(fn_name(h), b) for (h, b, _) in functions(tu) if re.search(r"\)$", h)]
+    reach = {target}
+    changed = True
+    while changed:
+        changed = False
+        for name, body in fns:
+            if name in reach:
+                continue
+            if any(re.search(r"\b%s\b" % re.escape(r), body) for r in reach):
+                reach.add(name)
+                changed = True
+    return sorted(reach - {target})
+
+
+def check_rc_sites(tu, repo=None, stray=None):
     """every occurrence of _ref_count in the translation unit is in get, put, the
-    constructor's initialisation, or the struct declaration"""
+    constructor's initialisation, or the struct declaration.  Every other function that touches
+    the field is recorded in `stray` (function, source lines, whether it updates the count
+    non-atomically, the functions it is reachable from) and reported."""
+    msgs = []
     for (h, b, _) in functions(tu):
         k = count_rc(b)
         if not k:
@@ -420,7 +472,22 @@ def check_rc_sites(tu):
             continue
         if re.search(r"\bjson_object_new\s*\([^()]*\)$", h) and k == 1 and re.search(r"jso\s*->\s*_ref_count\s*=\s*1\s*;", b):
             continue
-        raise Unrecognised("_ref_count is accessed outside json_object_get/put/new: in `%s`" % h[-120:])
+        name = fn_name(h)
+        upd = bool(NONATOMIC_UPDATE.search(b))
+        lines = source_lines(repo, "json_object.c", name) if repo else []
+        where = ", ".join("json_object.c:%d `%s`" % (n, t[:60]) for n, t in lines) or "`%s`" % h[-100:]
+        if stray is not None:
+            stray.append(dict(function=name, file="json_object.c", lines=[n for n, _ in lines], nonatomic_update=upd,
+                              reachable_from=callers_closure(tu, name)))
+        msgs.append("%s of _ref_count outside json_object_get/put/new in %s(): %s"
+                    % ("NON-ATOMIC UPDATE" if upd else "access", name, where))
+    # the references a container holds on its members must be released through json_object_put
+    for f in ("json_object_lh_entry_free", "json_object_array_entry_free"):
+        hits = [b for (h, b, _) in functions(tu) if fn_name(h) == f]
+        if len(hits) != 1 or not re.search(r"\bjson_object_put\s*\(", hits[0]):
+            msgs.append("%s() does not release the member through json_object_put()" % f)
+    if msgs:
+        raise Unrecognised("; ".join(msgs))
 
 
 # ------------------------------------------------------------------ seed
@@ -632,6 +699,7 @@ def translate(repo, cfg, defines):
     """returns (parts, reasons): parts = dict get/put/seed -> (ops, shown[, var]); a part that
     was not recognised is missing and has an entry in reasons"""
     parts, reasons = {}, []
+    stray = parts.setdefault("_stray", [])
     try:
         jo = preprocess(repo, cfg, "json_object.c", defines)
     except Unrecognised as e:
@@ -644,7 +712,7 @@ def translate(repo, cfg, defines):
         reasons.append(str(e))
     if jo is not None:
         try:
-            check_rc_sites(jo)
+            check_rc_sites(jo, repo, stray)
         except Unrecognised as e:
             reasons.append(str(e))      # a stray access: get/put are still translated
         for key, name, fn in (("get", "json_object_get", translate_get), ("put", "json_object_put", translate_put)):
@@ -681,7 +749,8 @@ def regenerate(repo, cfg, defines, out=OUT, out_check=OUT_CHECK):
     full = {k: parts.get(k, REFERENCE[k]) for k in ("get", "put", "seed")}
     text = render(full["get"], full["put"], full["seed"], defines, failed)
     ok = not reasons
-    info = dict(ok=ok, get=full["get"][0], put=full["put"][0], seed=full["seed"][0], placeholders=failed)
+    info = dict(ok=ok, get=full["get"][0], put=full["put"][0], seed=full["seed"][0], placeholders=failed,
+                stray=parts.get("_stray", []))
     if not ok:
         info["reason"] = "; ".join(reasons)
     info["changed"] = write_if_changed(out, text)
